@@ -398,6 +398,13 @@ def run(tier):
             for tm in (["conn", "conn"], ["conn", "dial:2"], ["conn", "connopt:3"], ["pre", "pre"]):
                 for fl in ([], [{"k": 2, "o": "cutAfter"}], [{"k": 2, "o": "cutBefore"}], [{"k": 2, "o": "cutAfter"}, {"k": 5, "o": "cutAfter"}]):
                     rsc.append(rf.scenario("pid-%d" % len(rsc), [rf.PUB(1), pp(q, pid)], tm, fl))
+    # "never 0", also on what is sent again: library-chosen identifiers, connection cut at every step of the exchange
+    # (for QoS 2 in particular between PUBREC and PUBCOMP: the PUBREL is repeated on the next connection)
+    for q in (1, 2):
+        for k in (2, 3, 4):
+            for o in ("cutBefore", "cutAfter"):
+                rsc.append(rf.scenario("nz-%d" % len(rsc), [rf.PUB(q), rf.PUB(q), rf.SUB(("x", 1))], ["conn"] * 3, [{"k": k, "o": o}]))
+                rsc.append(rf.scenario("nz-%d" % len(rsc), [rf.PUB(q)], ["conn"], [{"k": k, "o": o}, {"k": k + 2, "o": o}]))
     fam.execute(binary, rsc)
 
     model = collect_model()
